@@ -545,6 +545,18 @@ func digestFor(cls string, canon []byte) string {
 		return "sha512:" + h512(canon)
 	case "wrong":
 		return wrongDigest
+	case "malformed":
+		// not a digest: truncated, upper-case hex, an algorithm that is not registered, bare hex
+		h := h256(canon)
+		switch len(canon) % 4 {
+		case 0:
+			return "sha256:" + h[:40]
+		case 1:
+			return "sha256:" + strings.ToUpper(h)
+		case 2:
+			return "blake3:" + h
+		}
+		return "sha256:" + h[:63] + "g"
 	}
 	return ""
 }
